@@ -31,8 +31,11 @@ import (
 	"github.com/ozontech/seq-db/frac"
 	"github.com/ozontech/seq-db/frac/processor"
 	"github.com/ozontech/seq-db/fracmanager"
+	"github.com/ozontech/seq-db/logger"
 	"github.com/ozontech/seq-db/parser"
 	"github.com/ozontech/seq-db/seq"
+
+	"go.uber.org/zap/zapcore"
 
 	"verif/harness/internal/casefile"
 	"verif/harness/internal/fracbuild"
@@ -624,6 +627,12 @@ func (c *eCorpus) randomRequests(r *rng.R, n int, vocab map[string][]string, agg
 		fs = append(fs, f)
 	}
 	sort.Strings(fs)
+	for _, f := range append([]string{aggBy}, fs...) { // a queried field no document carries still needs a mapping
+		if i := sort.SearchStrings(c.fields, f); i == len(c.fields) || c.fields[i] != f {
+			c.fields = append(c.fields, f)
+			sort.Strings(c.fields)
+		}
+	}
 	var leaf func() *eExpr
 	leaf = func() *eExpr {
 		f := rng.Pick(r, fs)
@@ -1105,6 +1114,7 @@ func eRunCorpus(tmp string, idx int, c *eCorpus) (res eresult) {
 
 func runE2E(w *casefile.Writer, r *rng.R, tier string) {
 	defer runtime.GOMAXPROCS(runtime.GOMAXPROCS(min(6, runtime.NumCPU())))
+	logger.SetLevel(zapcore.ErrorLevel) // the store logs every rotation / seal / load at info level
 	thorough := tier == "thorough"
 	type job struct {
 		seed uint64
@@ -1116,8 +1126,9 @@ func runE2E(w *casefile.Writer, r *rng.R, tier string) {
 	nl, nsmall := 2, 10
 	sizes := []int{eTokBlock, eTokBlock - 1, eTokBlock + 1, 3 * eTokBlock}
 	if thorough {
-		nl, nsmall = 6, 60
+		nl, nsmall = 14, 150
 		sizes = append(sizes, 2*eTokBlock, 2*eTokBlock-1, 3*eTokBlock+1, 4*eTokBlock-1, eTokBlock, eTokBlock+1, 5*eTokBlock)
+		sizes = append(sizes, sizes...)
 	}
 	for i := 0; i < nl; i++ {
 		i := i
@@ -1131,7 +1142,7 @@ func runE2E(w *casefile.Writer, r *rng.R, tier string) {
 			return eGenLid64k(r, n)
 		})
 	}
-	for rep := 0; rep < map[bool]int{false: 1, true: 3}[thorough]; rep++ {
+	for rep := 0; rep < map[bool]int{false: 1, true: 6}[thorough]; rep++ {
 		for _, off := range []int{-2, -1, 0, 1} { // IDsTotal = docs+1: -1 -> IDsTotal = 4096k, 0 -> docs = 4096k
 			off := off
 			add(func(r *rng.R) *eCorpus { return eGenIds4k(r, r.Range(1, 3), off) })
@@ -1161,7 +1172,7 @@ func runE2E(w *casefile.Writer, r *rng.R, tier string) {
 	close(next)
 	workers := 6
 	if thorough {
-		workers = 3 // several 300k-document corpora at once would need too much memory
+		workers = 4 // several 300k-document corpora at once need memory (about 0.3 GB each)
 	}
 	for k := 0; k < workers; k++ {
 		wg.Add(1)
